@@ -36,7 +36,7 @@ man = {
                  "kind_free_text": "runtime monitoring: seeded workload generators drive the real code; differential, reference-model and history oracles; OS-boundary fault injection (audit hooks, kill-at-N)"}],
     "checks": checks,
     "not_applicable": [{"property_id": p, "reason": NA.get(p, "check not built yet (work in progress in this session); no verdict is claimed")} for p in props if p not in claimed],
-    "notes": "Exit codes of ./check: 0 held on everything explored, 1 violation (VIOLATION line), 2 inconclusive (a deciding monitor observed too little). Known findings are listed in /verif/known_findings.json and printed as KNOWN-FINDING lines.",
+    "notes": "Exit codes of ./check: 0 held on everything explored, 1 violation (VIOLATION line), 2 inconclusive (a deciding monitor observed too little). Known findings are listed in /verif/known_findings.json and printed as KNOWN-FINDING lines. The thorough tier plans far more cases than one sitting can run and works under a wall-clock budget (default 1500 s per check, VERIF_BUDGET_S=<seconds> or 0 for no limit): dedicated cases first, the kinds of cases interleaved; cases not started when the budget ends are reported in the evidence (planned_cases, cases_not_started_when_time_budget_ended), never counted as held.",
 }
 json.dump(man, open(os.path.join(HERE, "MANIFEST.json"), "w"), indent=1)
 print("claimed:", sorted(claimed))
